@@ -163,6 +163,38 @@ def impl(case):
         r0 = _call(w, pt, case, force_off=True)
         plain.append([_cf(v) for v in r0])
     res["vals"], res["plain"], res["scalar_out"] = vals, plain, shapes_ok
+    if case.get("nsteps", 1) == 1 and not _is_multi(w):
+        # the same evaluations through WCS.transform between the two frames, with the same options (flag given in any form)
+        tv = []
+        for pt in case["pts"]:
+            kw_ = {}
+            if case["withbb"] is not None:
+                kw_["with_bounding_box"] = _flag(case)
+            if case["fill"] is not None:
+                kw_["fill_value"] = case["fill"]
+            try:
+                r_ = w.transform("detector", "world", *pt, **kw_)
+                r_ = r_ if isinstance(r_, tuple) else (r_,)
+                tv.append([_cf(v) for v in r_])
+            except Exception as e:
+                tv.append("raised " + C.exc_enum(e))
+        res["transform_vals"] = tv
+    if n == 1 and case["box"] is not None:
+        # the interval of a one-input unit-carrying WCS given as quantities, in each of the accepted spellings
+        import astropy.units as u_
+        from gwcs import coordinate_frames as cf_
+        lo_, hi_ = case["box"][0]
+        qb = {}
+        for form, val in (("pair", (lo_ * u_.pix, hi_ * u_.pix)), ("nested", ((lo_ * u_.pix, hi_ * u_.pix),)), ("array", [lo_, hi_] * u_.pix)):
+            wq = gw.WCS([(cf_.CoordinateFrame(1, ("SPATIAL",), (0,), unit=(u_.pix,), name="detector"), models.Multiply(2.0 * u_.um / u_.pix)),
+                         (cf_.SpectralFrame(unit=u_.um, name="world"), None)])
+            try:
+                wq.bounding_box = val
+                iv = wq.bounding_box.intervals[0] if hasattr(wq.bounding_box, "intervals") else None
+                qb[form] = [_cf(iv.lower.to_value(u_.pix)), _cf(iv.upper.to_value(u_.pix))]
+            except Exception as e:
+                qb[form] = "raised %s: %s" % (type(e).__name__, str(e)[:80])
+        res["qbox"] = qb
     # the box as reported back after evaluating (explicit F order, and the way a user reads it: default order / tuple equality)
     res["box_after_eval"] = _read_box(w)
     res["box_default_after_eval"] = _read_box(w, order=None)
@@ -243,6 +275,13 @@ def oracle(case, res):
                         (pt, box, masking, [_dec(x) for x in v], [_dec(x) for x in p])))
         if len(out) > 3:
             break
+    if "transform_vals" in res and res["transform_vals"] != res["vals"]:
+        bad = [(pt, a, b) for pt, a, b in zip(case["pts"], res["transform_vals"], res["vals"]) if a != b][:1]
+        out.append(("transform", "WCS.transform('detector', 'world', ...) with with_bounding_box=%r fill_value=%r at %s gives %s, the call gives %s" %
+                    (None if case["withbb"] is None else _flag(case), case["fill"], bad[0][0], bad[0][1] if isinstance(bad[0][1], str) else [_dec(x) for x in bad[0][1]], [_dec(x) for x in bad[0][2]])))
+    for form, got in (res.get("qbox") or {}).items():
+        if got != exp_box[0]:
+            out.append(("quantity_box", "the interval %s given as quantities (%s) on a one-input unit-carrying WCS: %s" % (box[0], form, got)))
     sh = res.get("shared")
     if sh is not None:
         if "err" in sh:
